@@ -18,7 +18,7 @@ RULE = ('case = (profile of hashed area, batch seed); per generated area: one ev
         'bit flip of the hashed region; non-trivial area = carries at least one subpacket beyond creation time + issuer fingerprint; '
         'distinct = distinct hashed-area octet strings (digest)')
 ASSUMPTIONS = ['vf.ref.sig signer (validated against PGPy, fixtures and gpg in C02)', 'well-formedness of a subpacket body is judged by RFC 4880 5.2.3.x sizes only']
-MIN_COUNTERS = {'quick': {'areas_signed': 1500, 'accepted': 1400, 'hashdata_compared': 1400, 'bitflips': 20000, 'types_covered': 128},
+MIN_COUNTERS = {'quick': {'areas_signed': 1400, 'accepted': 1300, 'hashdata_compared': 1300, 'bitflips': 20000, 'types_covered': 128},
                 'thorough': {'areas_signed': 20000, 'bitflips': 300000}}
 BUDGET = {'quick': (240, 800), 'thorough': (1800, 3600)}
 TECHNIQUE = 'runtime monitoring: reference-signed hostile hashed areas + direct comparison of hashed octets at PGPSignature.hashdata + exhaustive bit-flip fault injection'
